@@ -10,6 +10,7 @@ import (
 	"sort"
 	"strings"
 
+	goerrors "github.com/ajitpratap0/GoSQLX/pkg/errors"
 	"github.com/ajitpratap0/GoSQLX/pkg/metrics"
 	"github.com/ajitpratap0/GoSQLX/pkg/sql/monitor"
 
@@ -140,6 +141,7 @@ func (p *P) Run(src *tape.Source, trace bool) *core.Result {
 	excluded := map[*cell]bool{}
 	var seqStats, concStats metrics.Stats
 	var seqMon, concMon monitor.MetricsSnapshot
+	var seqCache, concCache goerrors.SuggestionCacheStats
 	var s *sched.Sched
 	// ---- sequential oracle: each call alone on pristine state, twice
 	sequential := func() {
@@ -157,6 +159,7 @@ func (p *P) Run(src *tape.Source, trace bool) *core.Result {
 		}
 		seqStats = metrics.GetStats()
 		seqMon = monitor.GetMetrics()
+		seqCache = goerrors.GetSuggestionCacheStats()
 		ops.ResetGlobals()
 		for t := range work {
 			for _, c := range work[t] {
@@ -198,6 +201,7 @@ func (p *P) Run(src *tape.Source, trace bool) *core.Result {
 		s.Run()
 		concStats = metrics.GetStats()
 		concMon = monitor.GetMetrics()
+		concCache = goerrors.GetSuggestionCacheStats()
 		metrics.Disable()
 		monitor.Disable()
 	}
@@ -272,9 +276,16 @@ func (p *P) Run(src *tape.Source, trace bool) *core.Result {
 	cmp("MaxQuerySize", concStats.MaxQuerySize, seqStats.MaxQuerySize)
 	cmp("ParseOperations", concStats.ParseOperations, seqStats.ParseOperations)
 	cmp("ParseErrors", concStats.ParseErrors, seqStats.ParseErrors)
+	cmp("PoolGets", concStats.PoolGets, seqStats.PoolGets)
+	cmp("PoolPuts", concStats.PoolPuts, seqStats.PoolPuts)
+	cmp("StatementsCreated", concStats.StatementsCreated, seqStats.StatementsCreated)
 	if a, b := canon.Of(concStats.ErrorsByType), canon.Of(seqStats.ErrorsByType); a != b {
 		r.Fail("metrics-exact", "ErrorsByType", fmt.Sprintf("metrics ErrorsByType differs from the sequential execution %s: %s", ctx, canon.Diff(a, b)))
 	}
+	// suggestion cache: every lookup is counted exactly once (hit or miss), and
+	// the set of cached inputs does not depend on the schedule
+	cmp("suggestion-cache lookups(hits+misses)", int64(concCache.Hits+concCache.Misses), int64(seqCache.Hits+seqCache.Misses))
+	cmp("suggestion-cache size", int64(concCache.Size), int64(seqCache.Size))
 	cmp("monitor.TokenizerCalls", concMon.TokenizerCalls, seqMon.TokenizerCalls)
 	cmp("monitor.ParserCalls", concMon.ParserCalls, seqMon.ParserCalls)
 	cmp("monitor.PoolHits", concMon.PoolHits, seqMon.PoolHits)
